@@ -205,6 +205,9 @@ class BlockIntEnumFieldListWrapper(BlockBindEnum[F], BlockWrapper[F]):
         self.push("@unique")
         self.push(f"class {self.enum_name}(IntEnum):")
         self.push_typing_hint_inline_comment()
+        if not self.d.fields():
+            # Python requires a class body, even for an enum without any field.
+            self.push("pass", indent=4)
 
 
 class BlockEnumValueToNameMapItem(BlockBindEnumField[F]):
